@@ -145,7 +145,9 @@ class InitMethod(MethodDescriptor):
                     self, f"with_{instance_metadata.init_overflow_attr}"
                 )(  # TODO: avoid this
                     {
-                        key: value
+                        # (Like every other constructor argument, overflow
+                        # values are copied rather than shared with the caller.)
+                        key: protect_via_deepcopy(value)
                         for key, value in kwargs.items()
                         if key not in instance_metadata.annotations
                         or not instance_metadata.attrs[key].init
